@@ -14,7 +14,9 @@ Rules (DESIGN.md section 6, C09):
  4. kinds: a store into a NumPy array copies data (no containment), a store into a list / dict / object records
     containment; `list + list`, `list * k` build a list holding the operands' elements, array arithmetic is fresh;
  5. loops over range(1, d), range(d), Y[1:], Y, zip/enumerate of those run at least once (d >= 2);
- 6. callbacks do not write their arguments; what they return may reference anything reachable from their arguments;
+ 6. callbacks do not write their arguments; a callback parameter is an object (closure / bound method) like any other;
+    what a callback returns may reference anything reachable from its arguments OR from the callback object itself
+    (a sampler that hands out a view of a buffer it keeps: this is what flagged rand_custom before 45c0f32);
  7. a subscript whose index is a name bound only to np.where(..)[0], a comparison or `&`/`|` of masks is a NumPy advanced
     index: it yields a copy.
 An unknown construct becomes CUnknown "<reason>" on which the Coq check computes false.
@@ -224,6 +226,7 @@ class FuncVal:
 
 SCALAR = 'scalar'      # marker in `cur`: the name holds a value without identity
 FUNC = 'func'          # marker: documented callback parameter
+CALLBACK_OBJECTS = True   # rule 6: a callback parameter is an object (closure): what it returns may reference its cells
 
 
 class Variant:
@@ -258,7 +261,7 @@ class Tr:
                 continue
             if p in info.params and info.scalar_param(p):
                 self.cur[p] = SCALAR
-            elif p in info.params and info.func_param(p):
+            elif p in info.params and info.func_param(p) and not CALLBACK_OBJECTS:
                 self.cur[p] = FUNC
             else:
                 self.cur[p] = i
@@ -1026,12 +1029,15 @@ class Tr:
             ops = [a for a, r in zip(args, e.args) if not (isinstance(r, ast.Constant) and isinstance(r.value, str))]
             if len(ops) <= 1:
                 return sorted(set(flat + self.fresh([], KA)))
+            self.gen.used.add(('np-fresh', ast.unparse(e.func)))
             return self.fresh([], KA)
+        ow = []     # operands a LAPACK wrapper may overwrite: written in place AND possibly handed back as (part of) the result
         if nm in ('lstsq', 'solve', 'lu', 'qr', 'rq', 'svd', 'eigh', 'inv', 'solve_triangular'):
             for k, pos in (('overwrite_a', 0), ('overwrite_b', 1)):
                 if k in kw and not (isinstance(kw[k], ast.Constant) and kw[k].value is False):
                     if pos < len(args) and args[pos]:
                         self.emit(('store!', args[pos], []))
+                        ow += list(args[pos])
         if nm == 'array':
             cp = kw.get('copy')
             if 'dtype' in kw and ast.unparse(kw['dtype']) == 'object':
@@ -1058,12 +1064,15 @@ class Tr:
                 self.emit(('store!', args[0], []))
             return []
         if nm in NP_SCALAR:
+            self.gen.used.add(('np-scalar', ast.unparse(e.func)))
             return []
         if nm in NP_FRESH_TUPLE:
-            t = self.fresh([], KA)
+            self.gen.used.add(('np-fresh', ast.unparse(e.func)))
+            t = sorted(set(self.fresh([], KA) + ow))
             return self.define(('fresh', self.newsite(), t, 'list'))
         if nm in NP_FRESH:
-            return self.fresh([], KA)
+            self.gen.used.add(('np-fresh', ast.unparse(e.func)))
+            return sorted(set(self.fresh([], KA) + ow))
         if nm == 'product':
             t = self.define(('fresh', self.newsite(), self.sub(flat), KL))
             return self.define(('fresh', self.newsite(), t, KL))
@@ -1110,8 +1119,10 @@ class Tr:
                 return sorted(set(recv + self.fresh([], KA)))
             return self.fresh([], KA)
         if m in M_FRESH:
+            self.gen.used.add(('m-fresh', m))
             return self.fresh([], KA)
         if m in M_SCALAR:
+            self.gen.used.add(('m-scalar', m))
             return []
         if m in M_WRITE:
             self.emit(('store!', recv, []))
@@ -1424,6 +1435,7 @@ class Gen:
         self.api = []           # (exported name, key)
         self.notes = []
         self.uncovered = []
+        self.used = set()       # (class, dotted name) of every 'fresh' / 'no identity' table entry the translation relied on
 
     # -- variants ---------------------------------------------------------------------------------------------------
     def request(self, key):
@@ -1445,9 +1457,18 @@ class Gen:
     def public_keys(self, qual):
         info = self.pkg.funcs[qual]
         bind, split = {}, []
+        nodoc = not info.doctypes      # no `Args:` section at all (core_dot & co): boolean flags the body tests are
+                                       # specialised both ways, the other defaulted parameters stay at their default
         for p in info.params:
-            if p not in info.doctypes:
-                dv = info.defaults.get(p)
+            dv = info.defaults.get(p)
+            if nodoc:
+                if isinstance(dv, ast.Constant) and isinstance(dv.value, bool) and p in info.tested and len(split) < 4:
+                    split.append(p)
+                elif dv is not None and simple_const(dv):
+                    bind[p] = dv.value       # rule 2 as for any parameter that no `Args:` entry describes
+                elif isinstance(dv, ast.Lambda):
+                    bind[p] = '<lambda-default>'
+            elif p not in info.doctypes:
                 if dv is not None and simple_const(dv):
                     bind[p] = dv.value
                 elif isinstance(dv, ast.Lambda):
